@@ -48,6 +48,18 @@ reg(
     "DESIGN.md 4.1 C07",
 )
 
+reg(
+    "C06",
+    "The real trace+dedup output of every bounded G_acc program (setups fed by pure chains over induction variables, outer induction variables and "
+    "arguments; run-time and constant loop bounds incl. constant zero-trip; calls; ifs; two accelerators) is pushed through the real "
+    "accfg-config-overlap (thorough: also + insert-resets, + dedup again). Both IRs execute on the register machine for every loop-bound and branch "
+    "vector; launch/await/call traces with full register snapshots must be equal and the interpreter rejects any use of a not-yet-defined value.",
+    "Trusted: machines/ir.py, machines/accm.py (a launch snapshots the register file; a setup between launch and await is invisible to it). "
+    "Loop-carried non-state iter_args are not in the grammar.",
+    "bounded-exhaustive program enumeration x exhaustive run-time input enumeration, trace equality on an abstract machine (explicit-state)",
+    "DESIGN.md 4.1 C06",
+)
+
 NOT_APPLICABLE = []
 
 ALL = [f"C{i:02d}" for i in range(1, 21)]
